@@ -172,6 +172,8 @@ pub fn run_dimacs(case: &DimacsCase, st: &mut Stats) -> CaseResult {
         clause_sets(&back),
         got
     );
+    st.flag("dimacs.ge256_clauses", case.cnf.clauses.len() >= 256);
+    st.flag("dimacs.clause_of_ge256_literals", case.cnf.clauses.iter().any(|c| c.len() >= 256));
     st.flag("dimacs.dropped_final_zero", case.drop_last_zero && case.cnf.clauses.last().map(|c| !c.is_empty()).unwrap_or(false));
     st.flag("dimacs.empty_clause", case.cnf.has_empty_clause());
     st.flag("dimacs.no_clause", case.cnf.clauses.is_empty());
@@ -236,6 +238,8 @@ impl SubCheckT for Dimacs {
                 // variable numbers with two and three digits (and zeros in them)
                 1 => proptest::collection::vec(proptest::collection::vec((prop_oneof![0u8..=30, 0u8..=250, Just(9u8), Just(99u8), Just(100u8), Just(199u8)], any::<bool>()), 1..=5), 1..=12)
                     .prop_map(|clauses| CnfCase { clauses }),
+                // hundreds of clauses; clauses of hundreds of literals
+                1 => prop_oneof![many_clauses_strategy().boxed(), long_clauses_strategy().boxed()].prop_map(|clauses| CnfCase { clauses }),
             ],
             (1u8..=20, 1u8..=20),
             proptest::collection::vec(any::<u8>(), 1..12),
